@@ -752,9 +752,13 @@ impl SetU32 {
         match self.internal() {
             Internal::Empty => std::mem::size_of::<Self>(),
             Internal::Stack(_) => std::mem::size_of::<Self>(),
-            Internal::Heap { s, .. } => std::mem::size_of::<Self>() + s.cap as usize * 4 - 4,
-            Internal::Dense { a, .. } => std::mem::size_of::<Self>() + a.len() * 4 - 4,
-            Internal::Big { s, .. } => std::mem::size_of::<Self>() + s.cap as usize * 4 - 4,
+            Internal::Heap { s, .. } => {
+                std::mem::size_of::<Self>() + bytes_for_capacity(s.cap as usize)
+            }
+            Internal::Dense { a, .. } => std::mem::size_of::<Self>() + bytes_for_capacity(a.len()),
+            Internal::Big { s, .. } => {
+                std::mem::size_of::<Self>() + bytes_for_capacity(s.cap as usize)
+            }
         }
     }
     /// This requires that we currently be a dense! It also requires
